@@ -72,6 +72,11 @@ func drawConfig(t *rapid.T, o simOpts) sim.Config {
 	}
 	if n >= 5 && o.Focus != "C05" && rapid.IntRange(0, absentOneIn).Draw(t, "absent?") == 0 {
 		cfg.Absent = []int{rapid.IntRange(0, n-1).Draw(t, "absent")}
+		if n >= 6 && rapid.Bool().Draw(t, "absent2?") { // two members swapped out: the committees of neighbouring heights differ in more than the node itself
+			if x := rapid.IntRange(0, n-1).Draw(t, "absent2"); x != cfg.Absent[0] {
+				cfg.Absent = append(cfg.Absent, x)
+			}
+		}
 		cfg.AbsentH = uint64(rapid.IntRange(1, int(cfg.MaxHeight)).Draw(t, "absenth"))
 	}
 	// Byzantine subset of weight <= f (at every height), biased to maximal: greedy over a drawn order
